@@ -258,11 +258,84 @@ def _radial_by_value(f, fr0, header):
     return True, 'vertex k = (r_k sin(k d), r_k cos(k d)), next = (r_(k+1) sin(k d + d), r_(k+1) cos(k d + d)), d = 2 pi / n (by value)'
 
 
+def _discs_by_value(ctx, ab):
+    rep, f = ctx.rep, ctx.facts
+    from ..nest import Nest, single_loop_sum, items_source as _is
+    rep.saw(ab)
+    nst = Nest(f, ab, yields=False)
+    r = nst.tr.origin({'k': 'copy', 'l': 0, 'p': []})
+    ok = r['o'] == 'rvalue' and r['rv']['r'] == 'binop' and r['rv']['op'] == 'Sub'
+    why = 'area is not total - overlaps'
+    okd = okl = False
+    whyl = 'pair term not evaluated'
+    if ok:
+        ok1, why1, i1 = single_loop_sum(f, ab, ret_op=r['rv']['a'], nest=nst)
+        ok2, why2, i2 = single_loop_sum(f, ab, ret_op=r['rv']['b'], nest=nst, allow_adaptors=('tuple_combinations',))
+        ok = ok1 and ok2 and i1['source'] == (1, ['items']) and i2['loop']['adaptors'] == ['tuple_combinations']
+        if ok:
+            pair_src = None
+            for nm, tt, cbb in i2['loop']['chain_terms']:
+                if nm == 'tuple_combinations':
+                    pair_src = _is(f, nst.tr, tt['args'][0])
+            ok = pair_src == (1, ['items'])
+        why = 'area = sum(pi r^2 over items) - sum(lens over tuple_combinations of items)' if ok else \
+            'total: %s / overlaps: %s' % (why1, why2)
+        if ok:
+            n = i1['norm']
+            it1 = i1['item']
+            okd = len(i1['terms']) == 1 and not [c for c in i1['terms'][0][0] if c[0] != 'assume']
+            if okd:
+                okd = i1['terms'][0][1].equals(n.const(PI) * n.atom(it1 + '.radius') * n.atom(it1 + '.radius'))
+            n2 = i2['norm']
+            it2 = i2['item']
+            try:
+                r1, r2 = n2.atom(it2 + '.0.radius'), n2.atom(it2 + '.1.radius')
+                dx = n2.atom(it2 + '.0.position.x') - n2.atom(it2 + '.1.position.x')
+                dy = n2.atom(it2 + '.0.position.y') - n2.atom(it2 + '.1.position.y')
+                d = n2.fn('sqrt', dx * dx + dy * dy)
+                two = n2.const(2)
+                d1 = (d * d + r1 * r1 - r2 * r2) / (two * d)
+                d2 = (d * d + r2 * r2 - r1 * r1) / (two * d)
+                seg = lambda rr, dd: rr * rr * n2.fn('acos', dd / rr) - dd * n2.fn('sqrt', rr * rr - dd * dd)      # noqa: E731
+                ref = seg(r1, d1) + seg(r2, d2)
+                guard = d - (r1 + r2)
+                inside = outside = False
+                extra = False
+                for pc, val in i2['terms']:
+                    conds = [n2.cmp_canon(c[1], c[2]) for c in pc if c[0] == 'cond']
+                    if len(conds) == 1 and conds[0][0] == 'cmp' and conds[0][1] in ('Lt', 'Le') and conds[0][2].equals(guard):
+                        inside = val.equals(ref)
+                        whyl = 'lens = %s' % ('two-segment formula' if inside else val.canon()[:160])
+                    elif len(conds) == 1 and conds[0][0] == 'cmp' and conds[0][1] in ('Lt', 'Le') and conds[0][2].equals(-guard):
+                        outside = val.is_zero()
+                    else:
+                        extra = True
+                okl = inside and outside and not extra
+                if extra:
+                    whyl = 'the pair term has a case that is neither "d < r1 + r2" nor its complement'
+            except (NotNumeric, TypeError, KeyError) as ex:
+                whyl = str(ex)[:100]
+    rep.check(okd, 'R5', 'single-disc-term-is-pi-r2', where(ab), 'pi * r^2', 'the per-disc term is not pi r^2')
+    rep.check(okl, 'R5', 'pair-term-is-circle_overlap-of-the-pair', where(ab), 'the pair term is the lens of the two members of the pair (by value)',
+              'the pair term is not the lens of the two members of the pair: %s' % whyl)
+    rep.check(ok, 'R5', 'inclusion-exclusion-to-second-order', where(ab), why,
+              'the disc-union area is not sum of discs minus each unordered pair\'s lens once: %s' % why)
+    rep.check(okl, 'R5', 'lens-formula', where(ab),
+              'd < r1+r2: r1^2 acos(d1/r1) - d1 sqrt(r1^2-d1^2) + (1<->2), d1 = (d^2+r1^2-r2^2)/2d; else 0 (by value)',
+              'the pair term is not the two-segment lens formula guarded by d < r1 + r2: %s' % whyl)
+    rep.sample('disc union (by value): sum(pi r^2) - sum over unordered pairs of the lens area')
+
+
 def _discs(ctx):
     rep, f = ctx.rep, ctx.facts
     ADTM = 'shape::molecular_shape2::MolecularShape2'
     ab = f.one(self_adt=ADTM, trait='Intersect', name='area')
     co_ = f.one(self_adt=ADTM, name='circle_overlap')
+    if ab is not None and co_ is None:
+        # the lens is not a function called circle_overlap: decide the pair term by value (whatever it calls is evaluated by its
+        # definition) against the same two-segment formula
+        _discs_by_value(ctx, ab)
+        return
     if not rep.check(ab is not None and co_ is not None, 'R5', 'anchor:MolecularShape2::{area,circle_overlap}', ADTM, 'found', 'not found', 'anchor-lost'):
         return
     rep.saw(ab)
